@@ -36,9 +36,9 @@ def setup():
 
 
 def plan(tier, seed):
-    shards = [("k1",)]
+    shards = [("k1", -1)] + [("k1", i) for i in range(len(PHR))]
     for i in range(len(PHR)):
-        shards.append(("k2", i, 8 if tier == "quick" else NT))
+        shards.append(("k2", i, NT))
     if tier == "thorough":
         for i in range(len(PHR)):
             for j in range(len(PHR)):
@@ -46,7 +46,7 @@ def plan(tier, seed):
                     shards.append(("k3", i, j))
     return dict(
         shards=shards,
-        bounds=dict(max_phrases=2 if tier == "quick" else 3, phrase_start="0..5", phrase_length="0..4", note_ticks="all non-empty subsets of 0..8 (quick, 2-phrase layer: 0..7)"),
+        bounds=dict(max_phrases=2 if tier == "quick" else 3, phrase_start="0..5", phrase_length="0..4", note_ticks="all non-empty subsets of 0..8"),
         budget_s=1200 if tier == "thorough" else 300,
     )
 
@@ -87,9 +87,10 @@ def check_list(ctx, phr, placements, nt=NT):
 def run_shard(shard, ctx):
     kind = shard[0]
     if kind == "k1":
-        check_list(ctx, (), ("merged",))
-        for p in PHR:
-            check_list(ctx, (p,), ("before", "after", "merged"))
+        if shard[1] < 0:
+            check_list(ctx, (), ("merged",))
+        else:
+            check_list(ctx, (PHR[shard[1]],), ("before", "after", "merged"))
     elif kind == "k2":
         p = PHR[shard[1]]
         ctx.node()
